@@ -99,7 +99,9 @@ func runE2E(c e2e.Case) (ev.Info, error) {
 					last = &ctxs[i]
 				}
 			}
-			if last == nil || c.Restart {
+			if last == nil || c.Restart || last.Exec.Start < tr.FinalTicksAt {
+				// (grouped schedule bindings of one queue are compacted into one Group context: not every
+				// binding gets an execution of its own from the final ticks)
 				continue
 			}
 			snaps, _ := last.Ctx["snapshots"].(map[string]any)
